@@ -22,6 +22,7 @@ struct WavSpec {
 	uint16_t cbSize = 0;             // stored cbSize for the 18-byte form (ignored by CLM)
 	std::vector<WavChunk> beforeFmt, between, afterData;
 	std::vector<uint8_t> data;
+	bool padLastData = false;        // an odd-length data chunk that ends the file carries its RIFF pad byte (what conforming writers emit)
 };
 struct WavField { std::string name; size_t off; int width; };
 
@@ -42,6 +43,7 @@ inline std::vector<uint8_t> encodeWav(const WavSpec& w, std::vector<WavField>* f
 	field("data.tag", 4); putTag(b, "data");
 	field("data.len", 4); putU32(b, static_cast<uint32_t>(w.data.size()));
 	b.insert(b.end(), w.data.begin(), w.data.end());
+	if (w.padLastData && w.afterData.empty() && (w.data.size() & 1)) b.push_back(0);
 	for (auto& c : w.afterData) chunk(c);
 	uint32_t sz = static_cast<uint32_t>(b.size() - 8);
 	for (int i = 0; i < 4; ++i) b[4 + i] = static_cast<uint8_t>(sz >> (8 * i));
